@@ -1,5 +1,8 @@
 import DyntplV.Basic
 import DyntplV.Esc.Url
+import DyntplV.Esc.Json
+import DyntplV.Esc.Html
+import DyntplV.Esc.Js
 /-!
   Line-protocol driver: one request per line on stdin, one answer per line on stdout.
   Runs the *same* definitions the theorems are about.
@@ -37,6 +40,32 @@ def optHex : Option Bytes → String
 
 def boolStr (b : Bool) : String := if b then "1" else "0"
 
+def iterOpt (n : Nat) (f : Bytes → Option Bytes) (b : Bytes) : Option Bytes :=
+  (List.range n).foldl (fun acc _ => acc.bind f) (some b)
+
+/-- code points / code units as dot-separated decimals; `-` empty, `!` none -/
+def natsStr : Option (List Nat) → String
+  | none => "!"
+  | some [] => "-"
+  | some l => ".".intercalate (l.map toString)
+
+/-- n-fold rune-level decode: decode, re-encode as UTF-8 (from code points), decode … -/
+def iterCp (n : Nat) (dec : Bytes → Option (List Nat)) (toBytes : List Nat → Bytes) (b : Bytes) : Option (List Nat) :=
+  match n with
+  | 0 => none
+  | 1 => dec b
+  | n+1 => match iterOpt n (fun x => (dec x).map toBytes) b with
+    | none => none
+    | some x => dec x
+
+def utf16ToCps : List Nat → List Nat
+  | [] => []
+  | [x] => [x]
+  | h :: l :: rest =>
+    if 0xD800 ≤ h ∧ h ≤ 0xDBFF ∧ 0xDC00 ≤ l ∧ l ≤ 0xDFFF then
+      (0x10000 + (h - 0xD800) * 1024 + (l - 0xDC00)) :: utf16ToCps rest
+    else h :: utf16ToCps (l :: rest)
+
 /-- Answer one request line. -/
 def answer (line : String) : String :=
   match (line.splitOn " ").filter (· ≠ "") with
@@ -46,6 +75,43 @@ def answer (line : String) : String :=
     | some n, some i, some o =>
       let dec := (List.range n).foldl (fun acc _ => acc.bind Url.queryUnescape) (some o)
       s!"{hexStr (Url.encodeN n i)} {boolStr (Url.wellFormed o)} {optHex dec}"
+    | _, _, _ => "bad-op"
+  -- json <itr> <in> <goOut> → <modelOut> <alphabetOK goOut> <unescapeN goOut>
+  | ["json", n, i, o] =>
+    match n.toNat?, unhexStr i, unhexStr o with
+    | some n, some i, some o =>
+      s!"{hexStr (Json.escapeN n i)} {boolStr (Json.alphabetOK o)} {optHex (iterOpt n Json.unescape o)}"
+    | _, _, _ => "bad-op"
+  -- jsonq <itr> <in> <goOut> → <modelOut> <quoted & alphabetOK body> <decoded body>
+  | ["jsonq", _, i, o] =>
+    match unhexStr i, unhexStr o with
+    | some i, some o =>
+      let body := o.tail.dropLast
+      let quoted := o.head? == some 34 && o.getLast? == some 34 && o.length ≥ 2
+      s!"{hexStr (Json.quote i)} {boolStr (quoted && Json.alphabetOK body)} {optHex (Json.unescape body)}"
+    | _, _ => "bad-op"
+  | ["html", n, i, o] =>
+    match n.toNat?, unhexStr i, unhexStr o with
+    | some n, some i, some o =>
+      s!"{hexStr (Html.escapeN n i)} {boolStr (Html.alphabetOK o)} {optHex (iterOpt n Html.unescape o)}"
+    | _, _, _ => "bad-op"
+  | ["attr", n, i, o] =>
+    match n.toNat?, unhexStr i, unhexStr o with
+    | some n, some i, some o =>
+      s!"{hexStr (Html.attrEscapeN n i)} {boolStr (Html.attrAlphabetOK o)} {optHex (iterOpt n Html.unescape o)}"
+    | _, _, _ => "bad-op"
+  -- js <itr> <in> <goOut> → <modelOut> <alphabetOK goOut> <code units of n-fold decode>
+  | ["js", n, i, o] =>
+    match n.toNat?, unhexStr i, unhexStr o with
+    | some n, some i, some o =>
+      let dec := iterCp n Js.jsDecode (fun us => utf8Encode (utf16ToCps us)) o
+      s!"{hexStr (Js.jsEscapeN n i)} {boolStr (Js.alphabetOK o)} {natsStr dec}"
+    | _, _, _ => "bad-op"
+  | ["css", n, i, o] =>
+    match n.toNat?, unhexStr i, unhexStr o with
+    | some n, some i, some o =>
+      let dec := iterCp n Js.cssDecode utf8Encode o
+      s!"{hexStr (Js.cssEscapeN n i)} {boolStr (Js.cssAlphabetOK o)} {natsStr dec}"
     | _, _, _ => "bad-op"
   | ["link", n, i, o] =>
     match n.toNat?, unhexStr i, unhexStr o with
